@@ -345,8 +345,11 @@ sx_parse_list(const char *s, const size_t n, const size_t i)
         rv.status = SXS_UNEXPECTED_END;
         return rv;
     }
+    /* Only a closing parenthesis ends the list: "()" is an element of it. */
+    const size_t j = skip_ws(s, n, i);
+    const bool closing = (j < n) && (s[j] == ')');
     struct sx_parse_result carres = sx_parse_(s, n, i);
-    if (result_is_empty_listp(&carres) || result_is_error(&carres)) {
+    if ((closing && result_is_empty_listp(&carres)) || result_is_error(&carres)) {
         return carres;
     }
 
